@@ -17,6 +17,11 @@ M = [
     ("C15", "ge-range", "black_it/search_space.py", "if precision > (upper_bound - lower_bound):", "if precision >= (upper_bound - lower_bound):"),
     ("C15", "size-sum", "black_it/search_space.py", "self._space_size *= len(new_col)", "self._space_size *= max(len(new_col), 3)"),
     ("C15", "payload-swap", "black_it/search_space.py", "raise LowerBoundGreaterThanUpperBoundError(i, lower_bound, upper_bound)", "raise LowerBoundGreaterThanUpperBoundError(i, upper_bound, lower_bound)"),
+    ("C19", "count-after", "black_it/schedulers/rl/agents/epsilon_greedy.py", "return 1 / self.actions_count[action] if", "return 1 / (self.actions_count[action] + 1) if"),
+    ("C19", "le-eps", "black_it/schedulers/rl/agents/epsilon_greedy.py", "if not random_e < self.eps:", "if not random_e <= self.eps:"),
+    ("C19", "reward-abs", "black_it/schedulers/rl/envs/mab.py", "reward = (self._curr_best_loss - best_loss) / self._curr_best_loss", "reward = (self._curr_best_loss - best_loss) / best_loss"),
+    ("C19", "ref-always", "black_it/schedulers/rl/envs/mab.py", "            self._curr_best_loss = best_loss\n        return reward", "        self._curr_best_loss = best_loss\n        return reward"),
+    ("C19", "alpha-sentinel", "black_it/schedulers/rl/agents/epsilon_greedy.py", "if self.alpha == -1 else", "if self.alpha < 0 else"),
     ("C15", "no-tolerance", "black_it/search_space.py", "parameters_bounds[1][i] + 0.0000001,", "parameters_bounds[1][i],"),
 ]
 
